@@ -34,11 +34,21 @@ theorem atomic_store_keeps_flags (s : StF) (w f : Nat) : f ∈ (stepFAtomic s w 
   simp [stepFAtomic, List.mem_eraseDups]
   intro g hg; exact Or.inr hg
 
-/-- …whereas read – compute – write back loses an acknowledged update: both sessions are told OK, one keyword is gone
-(finding C08-F1: this is what STORE does) -/
+/-- …whereas an unconditional read – compute – write back loses an acknowledged update: both sessions are told OK, one
+keyword is gone (what STORE did before its repair) -/
 theorem read_modify_write_loses_update :
     let s := [EvF.read 1, .read 2, .write 1 10, .write 2 20].foldl stepF ⟨[], [], []⟩
     s.acked = [(2, 20), (1, 10)] ∧ s.flags = [20] := by decide
+
+/-- C08.4  the flag update as coded (conditional write, recomputed when another session got in between): for every number of
+sessions and every schedule of their reads and conditional writes, every flag addition that was answered OK is on the message -/
+theorem conditional_store_keeps_acked (sched : List EvC) :
+    ∀ a ∈ (sched.foldl stepC ⟨[], [], []⟩).acked, a.2 ∈ (sched.foldl stepC ⟨[], [], []⟩).flags :=
+  runC_acked sched ⟨[], [], []⟩ (by intro a ha; simp at ha)
+
+/-- the schedule that lost an update before: the second writer is not answered OK until it has re-read -/
+example : ([EvC.read 1, .read 2, .cas 1 10, .cas 2 20, .cas 2 20].foldl stepC ⟨[], [], []⟩).flags = [20, 10] ∧
+    ([EvC.read 1, .read 2, .cas 1 10, .cas 2 20].foldl stepC ⟨[], [], []⟩).acked = [(1, 10)] := by decide
 
 /-- C08.5  the double-checked handle cache never installs two handles for one store, for any sequence of requests -/
 theorem cache_single_handle (ids : List Nat) : ((getAll ⟨[], 0⟩ ids).handles.map (·.1)).Nodup :=
